@@ -38,6 +38,8 @@ impl ToPrimitive for u128 {
 pub assume_specification<T, U, F: FnOnce(T) -> U> [Option::<T>::map_or] (o: Option<T>, default: U, f: F) -> (r: U)
     requires o is Some ==> f.requires((o->Some_0,))
     ensures o is None ==> r == default, o is Some ==> f.ensures((o->Some_0,), r);
+/// R14 target: the value of a `format!(..)` (an arbitrary string: error texts and labels carry no contract)
+#[verifier::external_body] pub fn verif_format() -> (r: String) { unimplemented!() }
 /// `slice.to_vec()`: element-wise clone; ASSUMED to return equal elements (every element type used here derives Clone or is String)
 pub assume_specification<T: Clone> [<[T]>::to_vec] (s: &[T]) -> (r: Vec<T>) ensures r@ == s@;
 /// `to_owned` of a Clone type is its clone
